@@ -6,7 +6,7 @@
     has an odd number of terms ([Merge::from_vec] asserts it); theorems about the loop carry
     that guard. *)
 From Verif Require Import Base.Prelude Model.Merge Model.C01 Proofs.C01 Proofs.C01Simp
-  Proofs.C01Update Proofs.C01Checker.
+  Proofs.C01Update Proofs.C01Checker Proofs.C01Deep.
 Local Open Scope Z_scope.
 
 Section Statements.
@@ -30,6 +30,14 @@ Section Statements.
     Nat.odd (length mm) = true -> Forall (fun m => Nat.odd (length m) = true) mm ->
     den eqb (flatten mm) v = den_nested eqb mm v.
   Proof. exact (flatten_den eqb). Qed.
+
+  (** Conflicts whose terms are themselves conflicts, nested to any depth: flattening
+      [n] times a conflict nested [n + 1] levels deep (odd arity at every level) gives a flat
+      conflict in which every value's net count is its signed count through all levels
+      ([wdeep]: adds count positively, removes negatively, at each level). *)
+  Theorem C01_flatten_deep_den : forall (n : nat) (x : nested (S n) T) (v : T),
+    wf_deep (S n) x -> den eqb (flat_deep n x) v = wdeep eqb (S n) v x.
+  Proof. exact (flat_deep_den eqb). Qed.
 
   (** A simplified conflict has no value that is both a side (add) and a base (remove). *)
   Theorem C01_simplified_disjoint : forall (m : list T) (v : T),
@@ -99,7 +107,8 @@ End Statements.
 (** Meaning of the whole checker [C01.okb] that every run applies to the implementation's
     outputs (each field of [C01_ok] is one conjunct; see Proofs/C01Checker.v):
     den-equality of [simplify], odd arity, disjointness, idempotence, soundness of the
-    observed mapping, den-equality of [flatten], the write-back landing exactly on the mapped
+    observed mapping, den-equality of [flatten] (one level, and two levels through
+    [flatten().flatten()]), the write-back landing exactly on the mapped
     positions, and the equivalent multiset-of-changes law. *)
 Theorem C01_okb_spec : forall c : C01.case, C01.okb c = true <-> C01_ok c.
 Proof. exact okb_spec. Qed.
@@ -123,11 +132,13 @@ Example C01_nonvacuous :
   /\ simplified_mapping N.eqb [5; 6; 7; 5; 8]%N = [4; 1; 2]%nat
   /\ update_from_simplified N.eqb [5; 6; 7; 5; 8]%N [100; 101; 102]%N = [5; 101; 102; 5; 100]%N
   /\ flatten [[1; 2; 3]; [4; 5; 6]; [7]]%N = [1; 2; 3; 6; 5; 4; 7]%N
+  /\ flat_deep 2 [[[1; 2; 3]]; [[4]; [5; 6; 7]; [8]]; [[9]]]%N = [1; 2; 3; 8; 5; 6; 7; 4; 9]%N
   /\ Forall (fun m => Nat.odd (length m) = true) [[1; 2; 3]; [4; 5; 6]; [7]]%N.
 Proof. repeat split; repeat constructor. Qed.
 
 Print Assumptions C01_simplify_den.
 Print Assumptions C01_flatten_den.
+Print Assumptions C01_flatten_deep_den.
 Print Assumptions C01_simplified_disjoint.
 Print Assumptions C01_simplify_idem.
 Print Assumptions C01_mapping_sound.
